@@ -175,7 +175,7 @@ pub fn drive(args: &[String]) {
         let o = std::process::Command::new(&exe).args(["c31-child", "--seed", &s.to_string(), "--calls", &calls.to_string()])
             .env("RUST_BACKTRACE", "0").output().expect("spawn child");
         let mut ids: HashMap<u64, u64> = HashMap::new();
-        let mut idof = |p: u64, ids: &mut HashMap<u64, u64>| -> u64 { if p == 0 { 0 } else { let n = ids.len() as u64 + 1; *ids.entry(p).or_insert(n) } };
+        let idof = |p: u64, ids: &mut HashMap<u64, u64>| -> u64 { if p == 0 { 0 } else { let n = ids.len() as u64 + 1; *ids.entry(p).or_insert(n) } };
         let mut events: Vec<Value> = vec![json!({"e": "reset", "seq": s})];
         for line in String::from_utf8_lossy(&o.stdout).lines() {
             let Ok(mut v) = serde_json::from_str::<Value>(line) else { continue };
